@@ -14,7 +14,7 @@ import (
 func init() {
 	exec := map[string]func(in In, em *Emitter){
 		"p2i": execP2I, "allpaths": execAllPaths, "decode": execDecode, "encdec": execEncDec,
-		"i2p": execI2P, "pathw": execPathW, "fromstr32": execFromStr32, "pathsof": execPathsOf,
+		"i2p": execI2P, "i2pscan": execI2PScan, "pathw": execPathW, "fromstr32": execFromStr32, "pathsof": execPathsOf,
 	}
 	props["C03"] = &Prop{Gen: genC03, Exec: exec, Trivial: func(k string, in In) bool { return in.I("T") == 1 }}
 	props["C04"] = &Prop{Gen: genC04, Exec: exec, Trivial: func(k string, in In) bool { return in.I("T") == 1 }}
@@ -397,8 +397,71 @@ func execI2P(in In, em *Emitter) {
 	em.Calls(2 * len(xs))
 }
 
+// execI2PScan walks EVERY index of [lo, hi) of the full tree of height h and evaluates the property's own
+// round trip PathToIndex(full, IndexToPath(h, x)) == x plus the well-formedness of the path word. The scan
+// decides nothing: it is an input selector. Every disagreeing index (up to 40) and a few agreeing ones are
+// put into an ordinary "i2p" event, which TLC judges against the pre-order descent.
+func execI2PScan(in In, em *Emitter) {
+	h := in.I32("h")
+	lo, hi := in.I("lo"), in.I("hi")
+	full := int32(uint32(1)<<uint(h+1) - 1)
+	var sel []int64
+	bad := 0
+	abn := guard(func() {
+		step := (hi-lo)/7 + 1
+		for x := lo; x < hi; x++ {
+			p := bmtree.IndexToPath(h, int32(x))
+			mask := uint32(p)
+			bitsHalf := uint32(p >> 32)
+			l := bits.OnesCount32(mask)
+			wellFormed := uint64(mask) == (uint64(1)<<uint(l)-1)<<uint(int(h)-l) && bitsHalf&^mask == 0 && l <= int(h)
+			if !wellFormed || int64(bmtree.PathToIndex(full, p)) != x {
+				if bad < 40 {
+					sel = append(sel, x)
+				}
+				bad++
+			} else if (x-lo)%step == 0 {
+				sel = append(sel, x)
+			}
+		}
+	})
+	em.Scanned(2 * (hi - lo))
+	if abn != "" {
+		em.Emit("i2p", J{"in": J{"h": h, "xs": []int64{}}, "out": J{}, "abn": abn})
+		return
+	}
+	sortI64(sel)
+	paths := make([][]int64, len(sel))
+	back := make([]int64, len(sel))
+	abn = guard(func() {
+		for j, x := range sel {
+			p := bmtree.IndexToPath(h, int32(x))
+			paths[j] = hl(p)
+			back[j] = num(int64(bmtree.PathToIndex(full, p)))
+		}
+	})
+	o := J{"paths": paths, "back": back}
+	if abn != "" {
+		o = J{}
+	}
+	em.Emit("i2p", J{"in": J{"h": h, "xs": sel, "scanned": []int64{lo, hi}, "disagreeing": bad}, "out": o, "abn": abn})
+	em.Calls(2 * len(sel))
+}
+
 func genC05(g *Gen) {
 	r := g.R
+	// complete scan of the index space as an input selector: heights <= 24 (quick), all heights 0..30 = 2^32-33 pairs (thorough)
+	for h := 0; h <= g.N(24, 30); h++ {
+		n := int64(1)<<uint(h+1) - 1
+		chunk := int64(1 << 22)
+		for lo := int64(0); lo < n; lo += chunk {
+			hi := lo + chunk
+			if hi > n {
+				hi = n
+			}
+			g.Case("i2pscan", J{"h": h, "lo": lo, "hi": hi})
+		}
+	}
 	// every index of every height <= 10 (thorough 13)
 	for h := 0; h <= g.N(10, 13); h++ {
 		n := int64(1)<<uint(h+1) - 1
